@@ -8,6 +8,7 @@ libm table) and evaluates: SPD, f(M) <= f(prior), prior returned when no constra
 """
 import warnings
 import numpy as np
+import scipy.linalg
 
 import core
 import gen
@@ -108,8 +109,80 @@ def gen_case(rng, supervised):
   return ev
 
 
+class CallProbe:
+  """records every _total_loss / _gradient call of the LSML solver (no source change)"""
+  def __init__(self):
+    import metric_learn.lsml as lsml_mod
+    self.cls = lsml_mod._BaseLSML
+    self.o_loss, self.o_grad = self.cls._total_loss, self.cls._gradient
+    self.calls = []
+
+  def __enter__(self):
+    pr = self
+
+    def loss(self_, metric, vab, vcd, prior_inv):
+      Mc = np.array(metric, float).copy()
+      v = pr.o_loss(self_, metric, vab, vcd, prior_inv)
+      pr.calls.append(('loss', Mc, float(v), None))
+      return v
+
+    def grad(self_, metric, vab, vcd, prior_inv):
+      Mc = np.array(metric, float).copy()
+      g = pr.o_grad(self_, metric, vab, vcd, prior_inv)
+      pr.calls.append(('grad', Mc, float(scipy.linalg.norm(g)), np.array(g, float).copy()))
+      return g
+    self.cls._total_loss, self.cls._gradient = loss, grad
+    return self
+
+  def __exit__(self, *a):
+    self.cls._total_loss, self.cls._gradient = self.o_loss, self.o_grad
+
+
+def gen_run_case(rng):
+  """one real LSML fit with its complete call history, for the line-search machine of LSML.tla (growth, clauses G12)"""
+  d = int(rng.integers(2, 4))
+  X, y = gen.dataset(rng, d=d, n_classes=int(rng.integers(2, 4)), bits=4, sep=float(rng.choice([1.0, 2.5])))
+  idx = gen.quadruplets_from(rng, X, y, int(rng.integers(5, 12)))
+  quads = X[idx]
+  prior_kind = str(rng.choice(['identity', 'array']))
+  if prior_kind == 'array':
+    A = rng.normal(size=(d, d))
+    prior = gen.grid(A.T.dot(A) + np.eye(d), bits=4)
+  else:
+    prior = 'identity'
+  tol = float(rng.choice([1e-3, 0.05, 0.3]))
+  max_iter = int(rng.integers(1, 7))
+  ev = {'ev': 'LsmlRun', 'exc': '', 'supervised': False, 'mode': 'machine', 'prior_kind': prior_kind, 'wkind': 'none',
+        'tol': dy(tol), 'max_iter': max_iter, 'n_iter': 0, 'L': [], 'M0': dym(np.eye(d) if prior_kind == 'identity' else prior),
+        'steps': dyv(np.logspace(-10, 0, 10)), 'calls': []}
+  with warnings.catch_warnings():
+    warnings.simplefilter('ignore')
+    try:
+      with CallProbe() as pr:
+        est = gen.LSML(tol=tol, max_iter=max_iter, prior=prior if prior_kind == 'identity' else prior.copy()).fit(quads.copy())
+      ev['L'] = dym(np.asarray(est.components_))
+      ev['n_iter'] = int(est.n_iter_)
+      cur, gcur, gn = None, None, None
+      for kind, Mc, val, G in pr.calls:
+        noclip = False
+        if kind == 'grad':
+          cur, gcur, gn, k = Mc, G, val, 0
+        elif cur is not None and gcur is not None:
+          # (hint only: the un-projected trial is comfortably positive definite, so the projection left it alone)
+          raw = cur - (np.logspace(-10, 0, 10)[min(k, 9)] / gn) * gcur
+          noclip = bool(np.linalg.eigvalsh((raw + raw.T) / 2).min() > 1e-6)
+          k += 1
+        ev['calls'].append({'kind': kind, 'M': dym(Mc), 'val': dy(val), 'G': dym(G) if G is not None else [], 'noclip': noclip})
+    except Exception as e:
+      ev['exc'] = type(e).__name__
+      ev['exc_msg'] = str(e)[:160]
+  return ev
+
+
 def gen_trace(recipe):
   rng = np.random.default_rng(recipe['seed'])
+  if recipe.get('machine'):
+    return {'est': 'LSML', 'events': [gen_run_case(rng) for _ in range(recipe['n'])]}
   return {'est': 'LSML', 'events': [gen_case(rng, recipe['supervised']) for _ in range(recipe['n'])]}
 
 
@@ -134,6 +207,23 @@ def run(ctx):
       ctx.note_case((str(e.get('vab'))[:80], e['mode'], e['prior_kind'], e['wkind']), nontrivial=any(x[0] == 1 for x in e.get('g', [])))
   ctx.sample({k: str(v)[:140] for k, v in pairs[0][1]['events'][0].items()})
   good = pairs[0][1]
+  # ---- growth of the specification: complete call histories of real fits followed by the line-search machine (G12)
+  mrs = [dict(machine=True, supervised=False, n=4 if ctx.quick else 8, seed=int(rng.integers(1 << 30))) for _ in range(6 if ctx.quick else 120)]
+  mpairs = core.generate(MOD, mrs)
+  core.judge(ctx, *SPEC, mpairs, signature_of, tag='machine')
+  for r, t in mpairs:
+    for e in t['events']:
+      ctx.note_case(('machine', str(e['M0'])[:60], str(e['tol']), e['max_iter'], len(e['calls'])), nontrivial=len(e['calls']) > 12)
+  ctx.extra['line_search_histories'] = sum(len(t['events']) for _, t in mpairs)
+  ctx.extra['line_search_calls_followed'] = sum(len(e['calls']) for _, t in mpairs for e in t['events'])
+
+  def moved_trial(t):
+    for e in t['events']:
+      for c in e['calls'][2:3]:
+        c['M'] = [[[x[0], x[1] + 1, x[2]] if x[0] in (1, -1) else x for x in row] for row in c['M']]
+        c['noclip'] = True
+  mgood = next(t for r, t in mpairs if all(len(e['calls']) > 11 and not e['exc'] for e in t['events'][:1]))
+  core.selftest_binding(ctx, *SPEC, mgood, moved_trial, 'G12.', 'trial_point_moved_off_the_step_grid')
 
   def worse_than_prior(t):
     for e in t['events']:
